@@ -21,6 +21,25 @@ arrays, never with an array object that was handed to photutils (an
 implementation that combines masks in place would otherwise rewrite the truth
 the maps are judged against).
 
+Magnitude ladder (shift constant c and scale factor k are axes, not one
+moderate constant each): besides the generic c = 16 / k = 2.5 applied to every
+case, the shift relation is executed for c in {0.5, 2^10, 2^20, 2^30, -10,
+-2^30} and the scale relation for k in {2, 2^-10, 2^-30, 2^20} (more in the
+thorough tier), for the background AND the RMS map, in full product with
+(a) shape x box x edge x mask x exclude_percentile x interpolator of the
+structural product (the cells without coverage mask and with finite data) and
+(b) every float64 / no-filter-threshold case of the estimator product (all
+estimators x RMS estimators x sigma clips x filter sizes, both interpolators,
+coverage mask and non-finite pixels included).  All constants are dyadic and
+the ladder image is rounded to multiples of 2^-20 first, so data + c and
+data * k are formed without any rounding and the tolerance is the arithmetic
+of the implementation alone: 16 (n + 8) eps (scale + |c|) for the shift, 0
+(granted: 1e-12 k scale) for powers of two.  Where the configured filter is 1x1
+the mesh of the shifted / scaled image is also compared with the reference
+estimator of each box.  This reaches the scales on which a hidden absolute or
+relative tolerance of the implementation (allclose / isclose defaults 1e-8 and
+1e-5, "tiny" cut-offs, single-precision or one-pass arithmetic) sits.
+
 Both products are run twice: with the optional ``bottleneck`` accelerator
 importable, and with it blocked.  Blocking is done the only sound way: the
 unit is executed in a dedicated fresh interpreter in which
@@ -58,7 +77,11 @@ RULE = ('two full Cartesian products (see alphabet), each executed with bottlene
         'exclusion, fill, filter, interpolation - can change the result).  In the structural product mask kind x '
         'data kind (finite / unmasked NaN,+inf,-inf pixels) x coverage kind is a full product; every Background2D '
         'call gets fresh copies of mask and coverage_mask and all clauses are judged with the harness\'s own '
-        'read-only originals')
+        'read-only originals.  The shift constant c and the scale factor k of the equivariance clauses are axes '
+        '(magnitude ladder, dyadic values up to 2^30 / down to 2^-30, both signs of c) in full product with '
+        'shape x box x edge x mask x exclude_percentile x interpolator (structural cells without coverage mask and '
+        'non-finite pixels) and with every float64, threshold-free case of the estimator product; every other '
+        'float64 threshold-free case gets the moderate c = 16 and k = 2.5 only')
 ASSUMPTIONS = ['numpy arithmetic, sorting and scipy.ndimage.zoom / cKDTree are trusted; the photutils estimator classes, '
                'astropy SigmaClip, the bottleneck/numpy nan-statistics dispatch and the mesh filter are NOT trusted '
                '(re-derived in mcphot/ref/bkg2d.py)',
@@ -74,6 +97,18 @@ ASSUMPTIONS = ['numpy arithmetic, sorting and scipy.ndimage.zoom / cKDTree are t
                'only when fill_value lies outside [min, max] of the interpolated mesh (both interpolators produce '
                'values inside that range: clipped spline / positive-weight mean), counted in '
                'counters.maps_checked_fill_only_on_coverage vs maps_fill_inside_mesh_range',
+               'magnitude ladder: the image is rounded to multiples of 2^-20 and c, k are dyadic, so data + c and data * k '
+               'are exact (asserted at run time); shift tolerance 16 (n + 8) eps (max|data| + |c|), n = pixels per box '
+               '(bound on naive summation + estimator amplification <= 5 + spline gain <= 3; observed <= 16 eps M, '
+               'histogram in counters); power-of-two scaling commutes with IEEE arithmetic, expected deviation 0 '
+               '(observed 0), granted 1e-12 k max|data|.  A shift is judged only where the input is well-posed for the '
+               'discontinuous steps: the reference\'s smallest |pixel - clipping bound| and the distance from the '
+               'SExtractor branch switch must exceed 4x the worst-case perturbation of the bounds at that magnitude '
+               '(else counted in ladder_shift_ill_posed_not_judged); values |c| > 2^30, |k| outside [2^-60, 2^40], '
+               'non-dyadic large constants and subnormal / overflowing images are outside the bound',
+               'the mesh-vs-reference clause on shifted / scaled images is applied where the configured filter is 1x1 '
+               '(one third of the estimator-product ladder cases); with a 3x3 / 1x3 filter the transformed image is '
+               'judged through the relation with the (reference-checked) untransformed one',
                'mask / coverage_mask are passed as fresh writable bool ndarrays (copies); aliasing of one caller '
                'array passed as both mask and coverage_mask is not explored; mutation of the caller\'s arrays is '
                'not judged here (that is property C10), only its effect on the returned maps']
@@ -102,6 +137,38 @@ CLIPS = [None, (3.0, 10), (2.0, 3)]
 FSIZES = [(1, 1), (3, 3), (1, 3)]
 FTHRS = [None, 'mid']
 REPRS = ['float64', 'float32', 'quantity']
+# Magnitude axes of the shift / scale relations ("ladder").  All values are dyadic so that the transformed image is
+# formed WITHOUT rounding: the ladder data are first rounded to multiples of 2**-20 (QGRID), |data| <= 128, hence
+# data + c is exact for every c that is a multiple of 2**-20 with |c| <= 2**30, and data * 2**e is always exact.
+# The relation is then a statement about the implementation's arithmetic alone.  The ladder spans the absolute and
+# the relative scale on which a hidden tolerance (isclose / allclose defaults atol 1e-8, rtol 1e-5, "tiny" cut-offs)
+# can sit: relative spread of the mesh 2 / 2**30 = 2e-9, absolute size of the scaled data 10 * 2**-30 = 1e-8 with
+# mesh differences of 1e-9, and 2**-60 in the thorough tier; negative c moves the level to ~0 (mixed signs) and to
+# a large negative level.
+QGRID = 2.0 ** 20
+SHIFTS_QUICK = [0.5, 1024.0, 2.0 ** 20, 2.0 ** 30, -10.0, -2.0 ** 30]
+SHIFTS_THOROUGH = SHIFTS_QUICK + [2.0 ** 10 + 2.0 ** -20, 2.0 ** 25, -3.0, -2.0 ** 20]
+SCALES_QUICK = [2.0, 2.0 ** -10, 2.0 ** -30, 2.0 ** 20]
+SCALES_THOROUGH = SCALES_QUICK + [0.5, 2.0 ** -60, 2.0 ** 40]
+EPSF = float(np.finfo(float).eps)
+
+
+def shifts(tier):
+    return SHIFTS_THOROUGH if tier == 'thorough' else SHIFTS_QUICK
+
+
+def scales(tier):
+    return SCALES_THOROUGH if tier == 'thorough' else SCALES_QUICK
+
+
+def mag_label(x):
+    """'2^30', '-2^30', '2^-10' for pure powers of two beyond 2**+-9, else repr"""
+    m, e = np.frexp(abs(x))
+    if m == 0.5 and abs(e - 1) >= 10:
+        return f'{"-" if x < 0 else ""}2^{int(e) - 1}'
+    return repr(float(x))
+
+
 # representative structures of the estimator product: shape, box, edge, mask, coverage, exclude_percentile, interpolator
 STRUCTS = [
     {'shape': (6, 6), 'box': (3, 3), 'edge': 'pad', 'mask': 'none', 'cov': 'none', 'ep': 10, 'interp': 'zoom'},
@@ -302,7 +369,7 @@ def float_threshold_exact(box_npix, ep):
 # ---------------------------------------------------------------- the oracle for one configuration
 def check_config(acc, case, seed, *, shape, box, edge, mask_kind, cov_kind, ep, interp, bkg_name='SExtractor',
                  rms_name='Std', clip=(3.0, 10), fsize=(3, 3), fthr=None, rep='float64', fill=FILL,
-                 relations=True, tier='quick', nonfinite=False):
+                 relations=True, tier='quick', nonfinite=False, ladder=False):
     pb, SigmaClip, u = _phot()
     shape = tuple(shape)
     ebox = eff_box(shape, box)
@@ -570,6 +637,122 @@ def check_config(acc, case, seed, *, shape, box, edge, mask_kind, cov_kind, ep, 
             acc.violation('scale', 'rms', case, _maxdev(val(b5.rms)[vis], kmul * br[vis]), f'<= {t}')
     elif b5 == 'allboxes':
         acc.violation('scale', 'raises', case, 'ValueError all boxes', 'as base')
+    if not ladder:
+        return
+
+    # ---- 6. magnitude ladder of the shift / scale relations (and the mesh clause on the transformed data) ----
+    npb = ebox[0] * ebox[1]
+    unfiltered = tuple(fsize) == (1, 1)          # then background_mesh IS the box statistic: compare with the reference
+    exc_b = impl_excluded(b.obj)
+
+    def mesh_clause(bx, Rx, tolx, tag):
+        mx_, rx_, ex_ = val(bx.mesh).astype(float), val(bx.rmesh).astype(float), impl_excluded(bx.obj)
+        sure = Rx['incl'] & ~Rx['boundary'] & ~ex_
+        acc.counters['ladder_cells_compared_with_reference'] += int(sure.sum())
+        for nm, got, want, est in (('background', mx_, Rx['bkg'], bkg_name), ('rms', rx_, Rx['rms'], rms_name)):
+            bad = sure & ~(np.abs(got - want) <= tolx)
+            if bad.any():
+                j, i = (int(x) for x in np.argwhere(bad)[0])
+                acc.violation('mesh-value', f'{nm}:{est}:{tag}', case, f'cell({j},{i}) {got[j, i]!r}', repr(want[j, i]),
+                              f'tolerance {tolx!r}')
+        if np.any(sure & (np.asarray(bx.npix) != Rx['npix'])):
+            acc.violation('mesh-value', f'npixels:{tag}', case, np.asarray(bx.npix).tolist(), Rx['npix'].tolist())
+
+    # 6a. shift.  The ladder image dq is the data rounded to multiples of 2**-20, so dq + c is formed exactly
+    # (asserted) and B(dq + c) - c vs B(dq) measures nothing but the implementation's arithmetic at magnitude
+    # M = scale + |c|: the mean of n <= npb numbers of size M carries <= n*u*M (u = eps/2; naive summation), the
+    # median <= u*M, the std <= the error of the mean (two-pass), 3 med - 2 mean / 2.5 med - 1.5 mean amplify by <= 5,
+    # MADStd/biweight by O(1), the IDW fill and IDW map are convex combinations (+ few u*M), the cubic-spline
+    # prefilter has gain <= 3 in 2-D and the B-spline weights are a convex combination.  Bound ~ (3n + 30) eps M;
+    # tolerance 16 (n + 8) eps M (calibrated on the unchanged tree: histogram of the observed deviation in units of
+    # eps M in counters ladder_shift_dev_in_units_of_eps_M:*).  The discontinuous steps (keep/reject of the sigma clipping,
+    # SExtractor's median / 2.5 med - 1.5 mean switch) are judged only where the INPUT is well-posed: the
+    # reference's smallest |pixel - clip bound| must exceed 4 (1 + sigma) delta and the branch margin 4 * 2.3 delta,
+    # delta = n eps M being twice the bound on the error of mean/median/std (else counted as ill-posed, not judged).
+    dq = np.round(base * QGRID) / QGRID
+    Rq = ref.reference_mesh(dq, good, ebox, edge, ep, clip, bkg_name, rms_name)
+    if not np.array_equal(Rq['npix'], R['npix']):
+        acc.counters['ladder_quantisation_changed_clipping'] += 1        # measure-zero: rounding by 5e-7 flipped a clip
+        return
+    bq = build(acc, case, present(dq.copy()), rbox, kw, 'Background2D(quantised)')
+    if bq == 'allboxes':
+        acc.violation('shift', 'raises:quantised', case, 'ValueError all boxes', 'as base')
+    if isinstance(bq, Built) and check_maps(acc, case, bq, shape, cov, fill, interp):
+        bqk, bqr = val(bq.bkg), val(bq.rms)
+        fin = np.isfinite(dq)
+        for c in shifts(tier):
+            lab = mag_label(c)
+            M = scale + abs(c)
+            delta = npb * EPSF * M
+            sig = 0.0 if clip is None else clip[0]
+            if Rq['clip_margin'] <= 4 * (1 + sig) * delta or Rq['branch_margin'] <= 4 * 2.3 * delta:
+                acc.counters['ladder_shift_ill_posed_not_judged'] += 1
+                continue
+            dc = dq + c
+            if not np.array_equal((dc - c)[fin], dq[fin]):
+                raise RuntimeError(f'harness: dq + {c!r} is not exact')
+            t = 16 * (npb + 8) * EPSF * M
+            b4 = build(acc, case, present(dc), rbox, kw, f'Background2D(shift {lab})')
+            if b4 == 'allboxes':
+                acc.violation('shift', f'raises:c={lab}', case, 'ValueError all boxes', 'as base')
+                continue
+            if not isinstance(b4, Built) or not check_maps(acc, case, b4, shape, cov, fill, interp):
+                continue
+            acc.counters['ladder_shift_relations'] += 1
+            if not np.array_equal(impl_excluded(b4.obj), exc_b):
+                acc.violation('shift', f'excluded-boxes:c={lab}', case, impl_excluded(b4.obj).tolist(), exc_b.tolist())
+                continue
+            for nm, got, want in (('background', val(b4.bkg)[vis], bqk[vis] + c), ('rms', val(b4.rms)[vis], bqr[vis])):
+                dev = float(np.max(np.abs(got - want))) if got.size else 0.0
+                acc.counters[_bucket('ladder_shift_dev_in_units_of_eps_M', dev / (EPSF * M))] += 1
+                if not dev <= t:
+                    acc.violation('shift', f'{nm}:c={lab}', case, f'max deviation {dev!r} (map spread '
+                                  f'{float(np.ptp(got)) if got.size else 0.0!r}, expected spread {float(np.ptp(want)) if got.size else 0.0!r})',
+                                  f'<= {t!r} = 16 (n + 8) eps (scale + |c|), n = {npb}')
+            if unfiltered:
+                mesh_clause(b4, ref.reference_mesh(dc, good, ebox, edge, ep, clip, bkg_name, rms_name), t, f'shifted:c={lab}')
+
+    # 6b. scale by powers of two.  data * 2**e is exact and commutes with every IEEE operation (+ - * / sqrt,
+    # comparisons) as long as nothing under/overflows (|values| between 2**-60 * 1e-7 and 2**40 * 100, squares
+    # included: far inside the double range), so a homogeneous implementation gives B(k d) == k B(d) BIT FOR BIT
+    # (observed on the unchanged tree: counters ladder_scale_dev_in_units_of_eps_k_scale:*).  The tolerance 1e-12 k scale
+    # (4500 ulp) only leaves room for an implementation whose operation order depends on the magnitude; a wrong
+    # branch or a flattened map moves a value by a fraction of the mesh spread (> 1e-3 scale).
+    for k in scales(tier):
+        lab = mag_label(k)
+        dk = base * k
+        if not np.array_equal((dk / k)[good], base[good]):
+            raise RuntimeError(f'harness: data * {k!r} is not exact')
+        b5 = build(acc, case, present(dk), rbox, kw, f'Background2D(scale {lab})')
+        if b5 == 'allboxes':
+            acc.violation('scale', f'raises:k={lab}', case, 'ValueError all boxes', 'as base')
+            continue
+        if not isinstance(b5, Built) or not check_maps(acc, case, b5, shape, cov, fill, interp):
+            continue
+        acc.counters['ladder_scale_relations'] += 1
+        if not np.array_equal(impl_excluded(b5.obj), exc_b):
+            acc.violation('scale', f'excluded-boxes:k={lab}', case, impl_excluded(b5.obj).tolist(), exc_b.tolist())
+            continue
+        t = 1e-12 * scale * k
+        for nm, got, want in (('background', val(b5.bkg)[vis], k * bk[vis]), ('rms', val(b5.rms)[vis], k * br[vis])):
+            dev = float(np.max(np.abs(got - want))) if got.size else 0.0
+            acc.counters[_bucket('ladder_scale_dev_in_units_of_eps_k_scale', dev / (EPSF * scale * k))] += 1
+            if not dev <= t:
+                acc.violation('scale', f'{nm}:k={lab}', case, f'max deviation {dev!r} = {dev / k!r} k (map spread '
+                              f'{float(np.ptp(got)) / k if got.size else 0.0!r} k, expected spread '
+                              f'{float(np.ptp(want)) / k if got.size else 0.0!r} k)', f'<= {t!r} = 1e-12 k scale')
+        if unfiltered:
+            mesh_clause(b5, ref.reference_mesh(dk, good, ebox, edge, ep, clip, bkg_name, rms_name), rtol * scale * k,
+                        f'scaled:k={lab}')
+
+
+def _bucket(name, x):
+    """histogram counter name (counters of the units are summed, so a maximum is kept as a histogram)"""
+    if not x > 0:
+        return f'{name}:==0'
+    if not np.isfinite(x):
+        return f'{name}:non-finite'
+    return f'{name}:<=4^{max(0, int(np.ceil(np.log2(x) / 2)))}'
 
 
 def _cell_kind(shape, box, j, i):
@@ -657,7 +840,8 @@ def run_case(acc, case, seed, tier):
         box = case['box'] if isinstance(case['box'], str) else tuple(case['box'])
         check_config(acc, case, seed, shape=tuple(case['shape']), box=box, edge=case['edge'], mask_kind=case['mask'],
                      cov_kind=case['coverage'], ep=case['exclude_percentile'], interp=case['interpolator'], tier=tier,
-                     nonfinite=case.get('data_kind', 'finite') == 'nonfinite')
+                     nonfinite=case.get('data_kind', 'finite') == 'nonfinite',
+                     ladder=case['coverage'] == 'none' and case.get('data_kind', 'finite') == 'finite')
     else:
         st = STRUCTS[case['structure']]
         check_config(acc, case, seed, shape=st['shape'], box=st['box'], edge=st['edge'], mask_kind=st['mask'],
@@ -665,7 +849,7 @@ def run_case(acc, case, seed, tier):
                      rms_name=case['bkgrms_estimator'],
                      clip=None if case['sigma_clip'] is None else tuple(case['sigma_clip']),
                      fsize=tuple(case['filter_size']), fthr=case['filter_threshold'], rep=case['data'],
-                     fill=0.0, tier=tier, nonfinite=bool(st.get('nonfinite', False)))
+                     fill=0.0, tier=tier, nonfinite=bool(st.get('nonfinite', False)), ladder=True)
 
 
 def plan(tier, seed):
@@ -745,6 +929,8 @@ def describe(tier, seed):
     ns = len(shapes(tier))
     nstruct = ns * len(BOXES) * len(EDGES) * len(MASKS) * len(DATAK) * len(COVS) * len(eps(tier)) * len(INTERPS)
     nest = len(structs(tier)) * len(BKG_EST) * len(RMS_EST) * len(CLIPS) * len(FSIZES) * len(FTHRS) * len(REPRS)
+    nladder = 2 * (ns * len(BOXES) * len(EDGES) * len(MASKS) * len(eps(tier)) * len(INTERPS)
+                   + len(structs(tier)) * len(BKG_EST) * len(RMS_EST) * len(CLIPS) * len(FSIZES))
     return {'alphabet': {
         'structural_product': {'shape': [list(s) for s in shapes(tier)], 'box': [b if isinstance(b, str) else list(b) for b in BOXES],
                                'edge_method': EDGES, 'mask': MASKS,
@@ -760,10 +946,20 @@ def describe(tier, seed):
                               'filter_size': [list(f) for f in FSIZES], 'filter_threshold': FTHRS, 'data': REPRS,
                               'configurations': nest},
         'bottleneck': ['present', 'blocked (fresh interpreter, sys.modules["bottleneck"]=None before import)'],
+        'magnitude_ladder': {'shift_c': [mag_label(c) for c in shifts(tier)], 'scale_k': [mag_label(k) for k in scales(tier)],
+                             'data': 'rounded to multiples of 2^-20 for the shift ladder (data + c exact); data * 2^e exact',
+                             'applied_to': 'structural product cells with coverage none and finite data (full product with '
+                                           'shape x box x edge x mask x exclude_percentile x interpolator) and every float64 / '
+                                           'filter_threshold=None case of the estimator product; background and RMS maps; '
+                                           'mesh vs reference on the transformed image where filter_size is 1x1',
+                             'ladder_configurations': nladder,
+                             'relations_per_ladder_configuration': len(shifts(tier)) + len(scales(tier)),
+                             'tolerances': 'shift: 16 (n + 8) eps (max|data| + |c|); scale by 2^e: 1e-12 k max|data| (expected 0)'},
         'relations_per_configuration': 'mesh vs reference (filter_size=1 twin), filter vs reference, shape, finite, '
                                        'fill_value on the coverage pixels and (fill_value outside the mesh range) on no '
                                        'other pixel, zoom range, hidden pixels := +-1e9 / NaN / +-inf, unmasked non-finite '
-                                       'pixels moved into mask, constant image(s), shift(s), scale',
+                                       'pixels moved into mask, constant image(s), shift c=16 (thorough: and -3), scale '
+                                       'k=2.5; ladder configurations additionally every c and k of magnitude_ladder',
         'array_handling': 'every Background2D call receives fresh writable copies of mask / coverage_mask; the oracle '
                           'uses the read-only originals',
         'total_configurations': 2 * (nstruct + nest)}}
